@@ -357,9 +357,10 @@ func (c *clientHello) parseExtensions() error {
 				if !versions.ReadUint16(&v) {
 					return fmt.Errorf("%w: version", ErrDecodeError)
 				}
-				// RFC 8701: GREASE values (0x0A0A, 0x1A1A, ..) are not
-				// protocol versions.
-				if v >= 0x0304 && (v&0x0f0f != 0x0a0a || v>>8 != v&0xff) {
+				// TLS 1.3 or a later TLS version. RFC 8701: GREASE values
+				// (0x0A0A, 0x1A1A, ..) are not protocol versions, nor are
+				// the DTLS versions (0xFExx) or the TLS 1.3 drafts (0x7Fxx).
+				if v >= 0x0304 && v>>8 == 0x03 && (v&0x0f0f != 0x0a0a || v>>8 != v&0xff) {
 					c.tls13 = true
 				}
 			}
